@@ -167,10 +167,99 @@ func freeRound(cfg freeCfg, inner kvs.Storage, run *report.Run) (string, string)
 	return sig, what
 }
 
+// takeover: real clock, short lease (hook). A holder keeps the lock for hold; a caller of another Locker
+// waits all that time in Lock / LockWithCtx, takes over and holds for 3 leases while a third Locker spins
+// TryLock. The exclusion monitor must stay at <= 1 - this is where a lease that is not a full one for the
+// caller that waited (or is not kept) lets a second holder in. Guarded by a stall canary, because the
+// property only speaks about holders whose leases are renewed in time.
+func takeover(L, hold time.Duration, useCtx bool) (sig, what string, stall time.Duration) {
+	inner := inmem.New()
+	mk := func() dist.LockProvider {
+		p := dist.NewKvsLockProvider(inner, "/to/")
+		dist.VerifSetLeaseTTL(p, L)
+		return p
+	}
+	p1, p2, p3 := mk(), mk(), mk()
+	defer p1.Shutdown()
+	defer p2.Shutdown()
+	defer p3.Shutdown()
+	l1, l2, l3 := p1.NewLocker("x"), p2.NewLocker("x"), p3.NewLocker("x")
+	var worst atomic.Int64
+	stopCanary := make(chan struct{})
+	go func() {
+		for {
+			select {
+			case <-stopCanary:
+				return
+			default:
+			}
+			t := time.Now()
+			time.Sleep(2 * time.Millisecond)
+			if over := int64(time.Since(t) - 2*time.Millisecond); over > worst.Load() {
+				worst.Store(over)
+			}
+		}
+	}()
+	defer func() { close(stopCanary); stall = time.Duration(worst.Load()) }()
+	var holders atomic.Int32
+	var mu sync.Mutex
+	flag := func(who string) {
+		mu.Lock()
+		if sig == "" {
+			sig = "lock/two-holders"
+			what = fmt.Sprintf("real clock, lease %v: %s acquired while another caller (which had waited %v for the lock and then took over) was holding it", L, who, hold)
+		}
+		mu.Unlock()
+	}
+	l1.Lock()
+	holders.Add(1)
+	got := make(chan struct{})
+	release := make(chan struct{})
+	go func() {
+		if useCtx {
+			if l2.LockWithCtx(context.Background()) != nil {
+				close(got)
+				return
+			}
+		} else {
+			l2.Lock()
+		}
+		if holders.Add(1) > 1 {
+			flag("the waiting caller")
+		}
+		close(got)
+		<-release
+		holders.Add(-1)
+		l2.Unlock()
+	}()
+	time.Sleep(hold)
+	holders.Add(-1)
+	l1.Unlock()
+	select {
+	case <-got:
+	case <-time.After(L + 10*time.Second):
+		return "", "", 0 // hand-off problems are C04's business
+	}
+	deadline := time.Now().Add(3 * L)
+	for time.Now().Before(deadline) {
+		if l3.TryLock(context.Background()) {
+			if holders.Add(1) > 1 {
+				flag("a third caller's TryLock")
+			}
+			holders.Add(-1)
+			l3.Unlock()
+		}
+		time.Sleep(L / 10)
+	}
+	close(release)
+	time.Sleep(5 * time.Millisecond)
+	return sig, what, 0
+}
+
 func TestCheck(t *testing.T) {
 	run := report.New(prop, "fault_enumeration")
 	defer run.Finish(t)
-	run.Rule("controlled: scenarios of 2-5 workers (distinct Lockers of 1-3 providers and goroutines sharing a Locker) running programs over {Lock, TryLock, LockWithCtx} inside a synctest bubble; every kvs.Storage call of the lock code is a gate, the scheduler picks one enabled action per step (release a gate normally / as 'request lost' / as 'reply lost' with up to 2 faults, cancel an attempt before or during the call, leave a critical section, expire an ownerless record) - random and PCT schedules plus exhaustive DFS of 27 two-worker configurations with <=1 fault; monitor: number of callers between acquisition return and Unlock call never exceeds 1. free-running: same monitor under real scheduling with the race detector on inmem and Redis(miniredis). distinct = distinct (configuration, action trace) pairs executed in the controlled part")
+	run.Rule("controlled: scenarios of 2-5 workers (distinct Lockers of 1-3 providers and goroutines sharing a Locker) running programs over {Lock, TryLock, LockWithCtx} inside a synctest bubble; every kvs.Storage call of the lock code is a gate, the scheduler picks one enabled action per step (release a gate normally / as 'request lost' / as 'reply lost' with up to 2 faults, cancel an attempt before or during the call, leave a critical section, expire an ownerless record) - random and PCT schedules plus exhaustive DFS of 27 two-worker configurations with <=1 fault; monitor: number of callers between acquisition return and Unlock call never exceeds 1. take-over: on the real clock with a 300/400 ms lease (hook) a caller waits 1.25-2 leases behind a holder, takes over and holds for 3 leases against a TryLock-spinning third Locker (canary-guarded). free-running: same monitor under real scheduling with the race detector on inmem and Redis(miniredis). distinct = distinct (configuration, action trace) pairs executed in the controlled part")
 	run.Assume("controlled part: frozen virtual time, so leases never expire under a live holder (the property's premise); storage operations are atomic steps there - their internal atomicity is what the free-running part and C02 look at")
 	run.Assume("an ownerless lock record (left by an injected lost reply / lost Delete) disappears only through the explicit 'expire' action, which models lease expiry")
 
@@ -181,6 +270,37 @@ func TestCheck(t *testing.T) {
 	nsh := runtime.NumCPU()
 	shard.Run(run, "TestChild", "random", nsh, 45*time.Minute)
 	shard.Run(run, "TestChild", "dfs", nsh, 45*time.Minute)
+
+	// take-over scenarios on the real clock (they mostly sleep; run beside the free-running part)
+	var twg sync.WaitGroup
+	for i := 0; i < run.Pick(8, 40); i++ {
+		twg.Add(1)
+		go func(i int) {
+			defer twg.Done()
+			L := []time.Duration{400 * time.Millisecond, 300 * time.Millisecond}[i%2]
+			hold := L*time.Duration(3+i%4)/4 + L/2 // 1.25 L .. 2 L: longer than half a lease, around a whole one
+			for attempt := 1; ; attempt++ {
+				sig, what, stall := takeover(L, hold, i%3 == 0)
+				run.Max("canary_worst_stall_us", int64(stall/time.Microsecond))
+				if sig != "" && stall > L/8 {
+					if attempt < 3 {
+						run.Add("takeover_repeated_because_of_a_stall", 1)
+						continue
+					}
+					run.Inconclusive(fmt.Sprintf("take-over scenario: %s (canary stall %v)", what, stall))
+					return
+				}
+				run.Eval(1)
+				run.Add("takeover_scenarios", 1)
+				run.DistinctStr(fmt.Sprint("takeover", L, hold, i%3 == 0))
+				if sig != "" {
+					run.Violation(sig, what, map[string]any{"mode": "takeover", "lease": L.String(), "first_hold": hold.String(), "with_ctx": i%3 == 0})
+				}
+				return
+			}
+		}(i)
+	}
+	defer twg.Wait()
 
 	// free-running
 	rounds := run.Pick(200, 6000)
